@@ -160,6 +160,22 @@ def run_cases(cases):
                 continue
             want = expected(model, flt)
             got = scan(dst)
+            if got == want and len(case) > 6 and case[6] == "twice":
+                # the same source transferred a second time in the same process, to a second destination: same result
+                dst2 = dst + "_again"
+                try:
+                    if direction == "upload":
+                        classic.upload(conn, src, dst2, filter=flt, chunk_size=chunk)
+                    else:
+                        classic.download(conn, src, dst2, filter=flt, chunk_size=chunk)
+                    got = scan(dst2)
+                except S.SimAbort:
+                    raise
+                except Exception as ex:    # noqa
+                    viol.append(("transfer-raised:%s:%s" % (direction, type(ex).__name__), "%r (second time): %r" % (cases[ci], ex)))
+                    continue
+                finally:
+                    shutil.rmtree(dst2, ignore_errors=True) if os.path.isdir(dst2) else os.path.exists(dst2) and os.remove(dst2)
             if got != want:
                 if got is None:
                     kind = "nothing-transferred"
@@ -215,6 +231,9 @@ def all_cases(tier):
             # transfers onto an existing destination (a second upload / download of a tree whose files shrank)
             if c[3] == "none" and kind in ("pattern", "zeros") and (tier == "thorough" or c[1] == "F" or shapes.index(c[1]) % 3 == 0):
                 out.append(c + (kind, "over-longer"))
+            # the same source transferred twice in one process
+            if c[3] in ("none", "only-keep") and kind == "pattern" and (tier == "thorough" or c[1] == "F" or shapes.index(c[1]) % 3 == 1):
+                out.append(c + (kind, "twice"))
     return out
 
 
